@@ -754,9 +754,9 @@ def run(ctx):
             ctx.count("structured_cases")
 
     nmax = 30 if ctx.thorough else 12
-    cap_rnd = 4800 if ctx.thorough else 480
-    cap_big = 1200 if ctx.thorough else 64
-    cap_hist = 3200 if ctx.thorough else 320
+    cap_rnd = 14000 if ctx.thorough else 480
+    cap_big = 3600 if ctx.thorough else 64
+    cap_hist = 9600 if ctx.thorough else 320
     # interleave the three random families so that a tight budget cuts all
     # of them proportionally
     k = 0
